@@ -573,3 +573,14 @@ def queue_identity(ctx, R, DR, fn, file, puts):
                                and getattr(prog.resolve_expr(prog.module("msmart.lan"), n.value.func), "name", "") == "asyncio.Queue" for n in qinit)
     ctx.ob(R + ".d", fn.cls.qual, fifo, "the queue is a FIFO asyncio.Queue", func=fn.cls.qual, file=file, construct="self._queue = asyncio.Queue()",
            fail="the receive queue is not a plain FIFO asyncio.Queue (LifoQueue / PriorityQueue reorder packets)")
+    # ... without a capacity: put_nowait on a full queue raises QueueFull inside the callback, after the buffer has moved on - the packet is lost
+    bounded = []
+    for n in qinit:
+        if isinstance(n.value, ast.Call):
+            for a_ in list(n.value.args[:1]) + [k.value for k in n.value.keywords if k.arg == "maxsize"]:
+                v_ = prog.fold_or_none(a_, fn.module, fn.cls)
+                if not (isinstance(v_, int) and not isinstance(v_, bool) and v_ <= 0):
+                    bounded.append(n)
+    ctx.ob(R + ".d", fn.cls.qual, not bounded, "the receive queue is unbounded (put_nowait cannot fail)", func=fn.cls.qual, file=file, construct="asyncio.Queue()",
+           node=bounded[0] if bounded else None,
+           fail="the receive queue has a capacity: when more packets are reassembled than it holds, put_nowait raises QueueFull in the callback and the packet (and the rest of the segment) is lost")
